@@ -99,7 +99,18 @@ class StrInterp(SE.Interp):
             return ("str", self.show(recv))
         if name in ("is_none", "is_some") and isinstance(recv, tuple) and recv[0] == "v":
             return (recv == H.NONE_V) == (name == "is_none")
+        if name in ("into_iter", "iter", "iter_mut", "drain") and isinstance(recv, tuple) and recv and recv[0] == "s":
+            return recv
+        if name == "for_each" and isinstance(recv, tuple) and recv and recv[0] == "s":
+            for it_ in recv[1]:
+                self.call_closure(args[0], [it_])
+            return ("t", ())
         return super().ext_method(name, callee, recv, args)
+
+    def replace_obj(self, tgt, v):
+        if isinstance(v, tuple) and v and v[0] == "default" and tgt[1] == "pen::Pen":
+            v = default_pen()
+        return super().replace_obj(tgt, v)
 
     def ext_call(self, fp, args):
         if fp in ("alloc::string::String::new",):
@@ -167,17 +178,10 @@ def coverage(ctx, w, S, R, term_dump, parser_dump):
     tfields = [f["name"] for f in w.facts.struct_fields(S.term_ty)]
     # exemptions, derived: configuration (never written outside the constructor), the dirty set (transient report),
     # wrap-pending (equivalent to col == cols, C02.R4)
-    writers = {f: 0 for f in tfields}
-    for fn in w.bodies:
-        if S._impl_of(fn) != S.term_ty:
-            continue
-        is_ctor = any(s["k"] == "assign" and s["rv"]["k"] == "aggregate" and s["rv"].get("adt") == S.term_ty for bl in w.body(fn).blocks for s in bl["stmts"])
-        if is_ctor:
-            continue
-        for ps in list(E.stmt_writes[fn].values()) + [cs.W for cs in E.sites[fn]]:
-            for p in ps:
-                if p[0] == "arg1" and len(p) >= 2 and p[1] in writers:
-                    writers[p[1]] += 1
+    from rules import c19 as _c19
+    _ct = _c19.constructor_of(w, S.term_ty)
+    rw = shared.real_writers(w, S, _ct[0][0] if len(_ct) == 1 else None)
+    writers = {f: len(rw.get(f, ())) for f in tfields}
     exempt = {f for f in tfields if writers[f] == 0} | {S.dirty_field, R["pending_wrap"]}
     ctx.extra["not_dumped_by_design"] = sorted(exempt)
     for f in tfields:
@@ -342,6 +346,17 @@ def script_rules(ctx, w, S, R, term_dump, em):
                 elif fld in ("auto_wrap_mode", "origin_mode", "insert_mode", "new_line_mode", "cursor_keys_mode", "visible", "active_charset") or fld.startswith("charsets"):
                     ctx.violation("U2", subj + ":establishes", "emission %r is guarded by `%s` but the function %r does not set `%s` (it sets %s): wrong mode number or marker" % (text, e.guard_str(), f, fld, sets),
                                   loc="%s:%s" % (w.fn_loc(term_dump).rsplit(":", 1)[0], e.line))
+        # a relative move with a computed distance is emitted only when the distance is >= 1 (0 would be read as 1)
+        if f[0] in ("Cuf", "Cub", "Cuu", "Cud", "Cnl", "Cpl", "Vpr") and holes and e.guards:
+            k_, pol, ge = e.guards[-1]
+            ge0 = H.unwrap(ge)
+            strict = False
+            if isinstance(pol, tuple) and pol and pol[0] == "arm" and len(pol) >= 3 and pol[2] in ("Less", "Greater"):
+                strict = True
+            elif H.is_k(ge0, "binary") and ((ge0["op"] in ("<", ">", "!=") and pol is True) or (ge0["op"] in ("<=", ">=", "==") and pol is False)):
+                strict = True
+            ctx.check(strict, "U2", subj + ":nonzero", "the relative move %r is emitted under `%s`, which also holds when the distance is 0 - and a parameter of 0 means 1: the restored cursor ends one cell off" % (text, e.guard_str()),
+                      loc="%s:%s" % (w.fn_loc(term_dump).rsplit(":", 1)[0], e.line), sample={"emission": text, "guard": e.guard_str()})
         # parameter order of cursor addressing / margins
         if f[0] in ("Cup", "Decstbm") and len(holes) == 2:
             a, b = src(holes[0][1]), src(holes[1][1])
@@ -639,6 +654,15 @@ def ordering(ctx, w, S, R, term_dump, em):
     ok = ok and all(enter[0].order < x.order < leave[0].order for x in alt_ctx)
     ctx.check(ok, "U5", "alternate", "the alternate-screen switch (?1047h ... ?1047l) does not bracket the alternate content and the alternate saved-context block", loc=w.fn_loc(term_dump),
               sample={"enter": [e.line for e in enter], "leave": [e.line for e in leave]})
+    # no pen bleeds into the freshly created alternate screen: an UNCONDITIONAL pen reset sits between the last emission
+    # that can leave a pen behind (cell content, a saved pen) and the switch
+    if len(enter) == 1:
+        pen_left = [x for x in em if x.order < enter[0].order and x.kind == "nested" and (x.payload[0].endswith("Buffer::dump") or x.payload[0].endswith("Pen::dump"))]
+        last_pen = max((x.order for x in pen_left), default=-1)
+        resets = [x for x in em if last_pen < x.order < enter[0].order and not x.guards and fns.get(x.order) and fns[x.order][0] == "Sgr"
+                  and [list(p) for p in fns[x.order][1][1]] in ([[0]], [])]
+        ctx.check(bool(resets) or last_pen < 0, "U5", "pen-reset-before-alternate", "no unconditional pen reset (ESC [ m) between the last pen-carrying emission and the alternate-screen switch: the new alternate "
+                  "screen would be created and printed in whatever pen the primary content ended with", loc=w.fn_loc(term_dump), sample={"resets": [x.line for x in resets]})
     # the primary content precedes everything
     ctx.check(em and em[0].kind == "nested" and "primary" in src(em[0].payload[1]), "U5", "primary-first", "the primary buffer's content is not the first emission", loc=w.fn_loc(term_dump))
     # Vt::dump
